@@ -604,7 +604,9 @@ def _check_anss16_size_guard(repo, r5, s, search):
     for i, st in enumerate(body):
         if isinstance(st, ast.Assign) and isinstance(st.value, ast.Call) and (dotted(st.value.func) or "").endswith("int_from_bytes") and isinstance(st.targets[0], ast.Name):
             size_var, start = st.targets[0].id, i
-    if not r5.require(size_var is not None and lst_names, search, "ANSS16 decoded list size", "ANSS16._Search no longer decodes the list size from the size table"):
+    # (the table may also be addressed directly as <edb>.HT_L_list, without a local alias)
+    direct = any(isinstance(x, ast.Attribute) and x.attr == "HT_L_list" for x in ast.walk(search.node))
+    if not r5.require(size_var is not None and (lst_names or direct), search, "ANSS16 decoded list size", "ANSS16._Search no longer decodes the list size from the size table"):
         return
 
     class Unknown(Exception):
@@ -648,7 +650,8 @@ def _check_anss16_size_guard(repo, r5, s, search):
             return True
         if isinstance(e, ast.Call):
             d = dotted(e.func) or ""
-            if d == "len" and e.args and isinstance(e.args[0], ast.Name) and e.args[0].id in lst_names:
+            if d == "len" and e.args and ((isinstance(e.args[0], ast.Name) and e.args[0].id in lst_names) or
+                                          (isinstance(e.args[0], ast.Attribute) and e.args[0].attr == "HT_L_list")):
                 return env["__T"] + 1
             args = [ev(a, env) for a in e.args]
             if d == "math.ceil":
